@@ -12,4 +12,6 @@ for c in "$@"; do
   nv=$(echo "$out" | grep -c '^VIOLATION' || true)
   first=$(echo "$out" | grep -m1 '^VIOLATION' | cut -c1-400)
   echo "mutant=$ID check=$c exit=$rc violations=$nv $first"
+  cls=$(echo "$first" | sed -n 's/.*class=\([^ ]*\).*/\1/p')
+  printf '%s\t%s\t%s\t%s\t%s\t%s\n' "$ID" "$c" "$rc" "$nv" "$cls" "$(git -C /verif rev-parse --short HEAD)" >> /verif/seeded/RESULTS.tsv
 done
